@@ -18,7 +18,7 @@ import sys
 import time
 
 VERIF = os.path.dirname(os.path.dirname(os.path.abspath(__file__)))
-REPO = "/repo"
+REPO = os.environ.get("VERIF_REPO", "/repo")  # a vp run --with-repo sweeps on its own copy
 SEEDED = os.path.join(VERIF, "seeded")
 
 
@@ -99,7 +99,7 @@ def do_run(name, checks, tier):
     meta = json.load(open(os.path.join(d, "meta.json")))
     if not checks:
         checks = [meta["property"]]
-    lock = open("/tmp/.seed-run.lock", "w")
+    lock = open("/tmp/.seed-run%s.lock" % REPO.replace("/", "_"), "w")
     fcntl.flock(lock, fcntl.LOCK_EX)
     rc, out = sh(f"git -C {REPO} status --porcelain --untracked-files=no")
     if out.strip():
